@@ -14,6 +14,9 @@ from vlib.timeops import (
     effective,
     execute,
     execute_all,
+    mk_trigger,
+    sched_modes,
+    sched_setup,
     first_fire,
     fwd,
     judge,
@@ -45,7 +48,7 @@ RULE = (
     "one instant not judged; timestamp = (value, clock reading as datetime); time_interval = (value, time since previous "
     "element or since subscription). Non-trivial: delay: >=2 elements and some element still pending when a later notification "
     "arrives; delay_subscription: d>0 and >=1 element; delay_with_mapper: >=2 elements and >=1 duration firing strictly later "
-    "than its element; timestamp/time_interval: >=2 elements. Every check except delay_with_mapper_subdelay subscribes, in 1 case of 3, the same built observable a second time at a generated tick s1 in s0+{0,1,2,3,7} and applies the same oracle to that probe with its own subscribe tick (absolute due time D: expected shift D - s1). Distinct = distinct case JSON."
+    "than its element; timestamp/time_interval: >=2 elements. Every check except delay_with_mapper_subdelay subscribes, in 1 case of 3, the same built observable a second time at a generated tick s1 in s0+{0,1,2,3,7} and applies the same oracle to that probe with its own subscribe tick (absolute due time D: expected shift D - s1). Scheduler passing: operators with a scheduler parameter (delay, delay_subscription, timestamp, time_interval) are run in three modes - sub (no argument, subscription carries scheduler=lab scheduler), arg (scheduler=lab scheduler as operator argument, subscription carries none), arg-other (argument as before, subscription carries a different never-started virtual scheduler whose clock reads +1000 ticks; not for delay_subscription) - and must behave identically; one in four duration / subscription-delay observables of delay_with_mapper is a scheduler-less library factory (timer(d), empty(), return_value, never) that must inherit the subscribe-time scheduler. Any request for the real-time TimeoutScheduler during a run is refused and reported (realtime-fallback), any action left on the decoy scheduler is reported (wrong-scheduler). Distinct = distinct case JSON."
 )
 ASSUMPTIONS = [
     "absolute datetimes passed to delay/delay_subscription are not earlier than the subscription instant",
@@ -85,7 +88,8 @@ def _run_delay(case):
     s0 = case["s0"]
     src = lab.source(case["src"])
     ticks = sub_ticks(case)
-    probes = execute_all(lab, src.pipe(ops.delay(_darg(lab, case["form"], case["d"], s0))), ticks)
+    kw, sub = sched_setup(lab, case)
+    probes = execute_all(lab, src.pipe(ops.delay(_darg(lab, case["form"], case["d"], s0), **kw)), ticks, sub=sub)
     return combine([_judge_delay(case, lab, p, s) for p, s in zip(probes, ticks)], ticks)
 
 
@@ -96,7 +100,7 @@ def _judge_delay(case, lab, p, s):
     ts = [m[0] for m in eff]
     n = sum(1 for m in eff if m[1] == "N")
     pending = any(eff[i][1] == "N" and eff[i][0] + d > eff[j][0] for i in range(len(eff)) for j in range(i + 1, len(eff)))
-    cls = [f"form:{case['form']}", f"clock:{case['clock']}", f"src:{case['src']['kind']}"]
+    cls = [f"form:{case['form']}", f"clock:{case['clock']}", f"src:{case['src']['kind']}", f"sch:{case.get('sch') or 'sub'}"]
     if d == 0:
         cls.append("d=0")
     if len(set(ts)) < len(ts):
@@ -131,11 +135,12 @@ def _run_delaysub(case):
     s0 = case["s0"]
     src = lab.source(case["src"])
     ticks = sub_ticks(case)
-    probes = execute_all(lab, src.pipe(ops.delay_subscription(_darg(lab, case["form"], case["d"], s0))), ticks)
+    kw, sub = sched_setup(lab, case)
+    probes = execute_all(lab, src.pipe(ops.delay_subscription(_darg(lab, case["form"], case["d"], s0), **kw)), ticks, sub=sub)
     r = prelude(lab, probes[0], "delay_subscription", case)
     if r is not None:
         return r
-    cls = [f"form:{case['form']}", f"clock:{case['clock']}", f"src:{case['src']['kind']}"]
+    cls = [f"form:{case['form']}", f"clock:{case['clock']}", f"src:{case['src']['kind']}", f"sch:{case.get('sch') or 'sub'}"]
     if case["d"] == 0:
         cls.append("d=0")
     ds = [case["d"] if case["form"] != "abs" else s0 + case["d"] - s for s in ticks]
@@ -160,7 +165,7 @@ def _run_dwm(case):
     made = []
 
     def mapper(x):
-        o = lab.source(durs[x])
+        o = mk_trigger(lab, durs[x])
         made.append(o)
         return o
 
@@ -168,7 +173,7 @@ def _run_dwm(case):
     if sd is None:
         op = ops.delay_with_mapper(mapper)
     else:
-        op = ops.delay_with_mapper(lab.source(sd), mapper)
+        op = ops.delay_with_mapper(mk_trigger(lab, sd), mapper)
     ticks = sub_ticks(case) if sd is None else [s0]
     probes = execute_all(lab, src.pipe(op), ticks)
     r = combine([_judge_dwm(case, lab, p, src, s, ticks) for p, s in zip(probes, ticks)], ticks)
@@ -235,6 +240,8 @@ def _judge_dwm(case, lab, p, src, s0, ticks):
                 fire[i] = None
             else:
                 fire[i] = T + ff[0]
+                if durs[i]["kind"].startswith("lib:"):
+                    cls.append("duration:" + durs[i]["kind"])
                 if durs[i]["kind"] == "sync" and ff[0] == 0:
                     sync_fire.add(i)
                     if len(conform(durs[i]["tl"])) > 1:
@@ -290,12 +297,13 @@ def _run_stamp(case):
     s0 = case["s0"]
     src = lab.source(case["src"])
     which = case["op"]
+    kw, sub = sched_setup(lab, case)
     if which == "timestamp":
-        o = src.pipe(ops.timestamp(), ops.map(lambda r: ("ts", r.value, r.timestamp)))
+        o = src.pipe(ops.timestamp(**kw), ops.map(lambda r: ("ts", r.value, r.timestamp)))
     else:
-        o = src.pipe(ops.time_interval(), ops.map(lambda r: ("ti", r.value, r.interval)))
+        o = src.pipe(ops.time_interval(**kw), ops.map(lambda r: ("ti", r.value, r.interval)))
     ticks = sub_ticks(case)
-    probes = execute_all(lab, o, ticks)
+    probes = execute_all(lab, o, ticks, sub=sub)
     return combine([_judge_stamp(case, lab, p, s, which) for p, s in zip(probes, ticks)], ticks)
 
 
@@ -313,7 +321,7 @@ def _judge_stamp(case, lab, p, s0, which):
             exp.append([T, "N", canon(("ti", int(v[2:]), tick_datetime(lab, T) - tick_datetime(lab, last)))])
             last = T
     n = sum(1 for m in eff if m[1] == "N")
-    cls = [f"clock:{case['clock']}", f"src:{case['src']['kind']}"]
+    cls = [f"clock:{case['clock']}", f"src:{case['src']['kind']}", f"sch:{case.get('sch') or 'sub'}"]
     if len({m[0] for m in eff}) < len(eff):
         cls.append("burst")
     if case["src"]["kind"] == "hot" and len(eff) < len(conform(case["src"]["tl"])):
@@ -323,13 +331,13 @@ def _judge_stamp(case, lab, p, s0, which):
 
 # ------------------------------------------------------------------------------ strategies
 @st.composite
-def _delay_cases(draw, abs_ok=True):
+def _delay_cases(draw, abs_ok=True, other_ok=True):
     d = draw(st.sampled_from([0, 0, 1, 2, 3, 5]))
     s0, spec = draw(sources(d=d))
     form = draw(st.sampled_from(FORMS_REL + (["abs"] if abs_ok else [])))
     # second subscription of the same observable; an absolute due time must not lie before it
     s1 = second_sub(draw, s0, limit=d if form == "abs" else None)
-    return {"clock": draw(st.sampled_from(CLOCKS)), "s0": s0, "src": spec, "d": d, "form": form, "s1": s1}
+    return {"clock": draw(st.sampled_from(CLOCKS)), "s0": s0, "src": spec, "d": d, "form": form, "s1": s1, "sch": sched_modes(draw, other_ok)}
 
 
 @st.composite
@@ -348,14 +356,14 @@ def _dwm_cases(draw, subdelay=False):
 @st.composite
 def _stamp_cases(draw):
     s0, spec = draw(sources(d=2))
-    return {"clock": draw(st.sampled_from(CLOCKS)), "s0": s0, "src": spec, "op": draw(st.sampled_from(["timestamp", "time_interval"])), "s1": second_sub(draw, s0)}
+    return {"clock": draw(st.sampled_from(CLOCKS)), "s0": s0, "src": spec, "op": draw(st.sampled_from(["timestamp", "time_interval"])), "s1": second_sub(draw, s0), "sch": sched_modes(draw)}
 
 
 def checks(tier):
     T = 16
     return [
         Check("delay", _run_delay, strategy=_delay_cases(), examples={"quick": 2400, "thorough": T * 12000}, shards={"quick": 4, "thorough": 16}),
-        Check("delay_subscription", _run_delaysub, strategy=_delay_cases(), examples={"quick": 1200, "thorough": T * 5000}, shards={"quick": 4, "thorough": 16}),
+        Check("delay_subscription", _run_delaysub, strategy=_delay_cases(other_ok=False), examples={"quick": 1200, "thorough": T * 5000}, shards={"quick": 4, "thorough": 16}),
         Check("delay_with_mapper", _run_dwm, strategy=_dwm_cases(), examples={"quick": 2000, "thorough": T * 8000}, shards={"quick": 4, "thorough": 16}),
         Check("stamp", _run_stamp, strategy=_stamp_cases(), examples={"quick": 800, "thorough": T * 4000}, shards={"quick": 4, "thorough": 16}),
         Check("delay_with_mapper_subdelay", _run_dwm, strategy=_dwm_cases(subdelay=True), examples={"quick": 1000, "thorough": T * 5000}, shards={"quick": 4, "thorough": 16}),
